@@ -36,7 +36,7 @@ ENDINGS = [
     # file without #! line: ENOEXEC), in each phase
     'hard_exec_setup', 'hard_exec_act', 'hard_exec_before_assert', 'hard_exec_assert', 'hard_exec_cleanup',
     'missing_include', 'preproc_fail', 'preproc_nonexec', 'preproc_killed', 'preproc_exit_255', 'preproc_stderr_only',
-    'no_case_file', 'unknown_option', 'bad_utf8',
+    'no_case_file', 'unknown_option', 'bad_utf8', 'case_symlink_loop', 'case_below_regular_file',
     'suite_syntax_error', 'suite_missing_include',
 ]
 CORE_RCS = [0, 1, 2, 32, 33, 64, 65, 127, 128, 129, 255]
@@ -46,7 +46,7 @@ OUTPUTS = [('', ''), ('out text\n', 'err text\n'), ('no final newline', 'e'), ('
 _PARSE_TIME = {'syntax_instr', 'syntax_unknown_instr', 'unknown_phase', 'missing_include', 'suite_syntax_error',
                'suite_missing_include'}
 _BEFORE_PARSE = {'preproc_fail', 'preproc_nonexec', 'preproc_killed', 'preproc_exit_255', 'preproc_stderr_only',
-                 'no_case_file', 'unknown_option', 'bad_utf8'}
+                 'no_case_file', 'unknown_option', 'bad_utf8', 'case_symlink_loop', 'case_below_regular_file'}
 
 
 def cases(tier, seed):
@@ -69,7 +69,8 @@ def cases(tier, seed):
             # (exactly.suite beside it, or --suite FILE); or both, where the case's own setting comes last and wins
             via = 'case'
             if status is not None and ending not in ('suite_syntax_error', 'suite_missing_include', 'unknown_option',
-                                                     'no_case_file'):
+                                                     'no_case_file', 'case_symlink_loop',
+                                                     'case_below_regular_file'):
                 via = VIAS[(idx + j) % len(VIAS)]
             yield {'ending': ending, 'status': status, 'mode': mode, 'act_rc': rc, 'act_out': out, 'act_err': err,
                    'k': 1 + (idx + j) % 3, 'via': via,
@@ -177,7 +178,7 @@ def build(case, probe_path):
         as_ = [good]
         files['pp-err.sh'] = ('exe', '#!/bin/sh\necho oops >&2\nexit 2\n')
         argv = ['--preprocessor', './pp-err.sh']
-    elif e in ('no_case_file', 'unknown_option', 'bad_utf8'):
+    elif e in ('no_case_file', 'unknown_option', 'bad_utf8', 'case_symlink_loop', 'case_below_regular_file'):
         as_ = [good]
     elif e == 'suite_syntax_error':
         # the suite file found beside the case (exactly.suite) cannot be parsed
@@ -224,6 +225,9 @@ def expected(case):
     e = _ALIAS.get(e, e)
     if e in ('no_case_file', 'unknown_option'):
         return {'kind': 'usage'}
+    if e in ('case_symlink_loop', 'case_below_regular_file'):
+        # a name that cannot be a readable file: invalid usage like a missing file, or a consistent error row
+        return {'kind': 'usage_or_error_row'}
     if e == 'bad_utf8':
         return {'kind': 'any_error_row'}
     if e in ('preproc_fail', 'preproc_nonexec', 'preproc_killed', 'preproc_exit_255', 'preproc_stderr_only'):
@@ -268,6 +272,12 @@ def run_case(case, ctx):
     target = os.path.join(d, name)
     if case['ending'] == 'no_case_file':
         target = os.path.join(d, 'does-not-exist.case')
+    elif case['ending'] == 'case_symlink_loop':
+        os.symlink('loop-b.case', os.path.join(d, 'loop-a.case'))
+        os.symlink('loop-a.case', os.path.join(d, 'loop-b.case'))
+        target = os.path.join(d, 'loop-a.case')
+    elif case['ending'] == 'case_below_regular_file':
+        target = os.path.join(d, name, 'x.case')
     full_argv = margv + argv + [target]
     r = ses.run(full_argv, cwd=d, mode=mode)
     exp = expected(case)
@@ -295,6 +305,13 @@ def run_case(case, ctx):
                 bad('invalid usage must leave stdout empty')
             if any(l in OUTCOME_TABLE for l in r.err.split('\n')):
                 bad('invalid usage must print no exit identifier')
+        elif kind == 'usage_or_error_row':
+            ident = first_line(r.out) if mode == 'normal' else first_line(r.err)
+            usage = r.rc == 64 and r.out == '' and not any(l in OUTCOME_TABLE for l in r.err.split('\n'))
+            row = ident in OUTCOME_TABLE and OUTCOME_TABLE[ident] == r.rc and r.rc not in (0, 32, 33)
+            if not (usage or row):
+                bad('a case file name that cannot be read must give invalid usage (64, no identifier) or a consistent '
+                    'error row, got ident=%r rc=%r stderr %r' % (ident, r.rc, r.err[-200:]))
         elif kind == 'any_error_row':
             ident = first_line(r.out) if mode == 'normal' else first_line(r.err)
             if ident not in OUTCOME_TABLE or OUTCOME_TABLE[ident] != r.rc or r.rc in (0, 32, 33):
